@@ -193,3 +193,10 @@ package io
 //@ func GetVarSize
 //@ assumed
 //@ pure
+
+//@ func (*BinReader).ReadString
+//@ requires[reader] validR(r)
+//@ requires[nonneg] len(maxSize) > 0 ==> maxSize[0] >= 0
+//@ modifies r.Err, r.uv, r.r.pos
+//@ ensures[bound] len(result) <= ite(len(maxSize) > 0, maxSize[0], MaxArraySize)
+//@ ensures[pos] old(r.r.pos) <= r.r.pos && r.r.pos <= len(r.r.in) && validR(r)
